@@ -33,6 +33,9 @@ type CollationOrderKey[K chars | []rune] struct {
 func (cok *CollationOrderKey[K]) Transform(k K) ([]byte, []byte) {
 	cok.src = k
 	b := []byte(string(k))
+	// the sort key lives in cok.buf until the next Transform; whoever keeps it
+	// longer (a leaf, the first bound of a Range) must copy it
+	cok.buf.Reset()
 	return b, cok.c.Key(cok.buf, b)
 }
 func (cok *CollationOrderKey[K]) Restore(b []byte) K { return cok.src }
